@@ -35,14 +35,23 @@ func main() {
 		for _, id := range core.IDs() {
 			fmt.Println(id)
 		}
+	case "info":
+		ch := core.Lookup(os.Args[2])
+		if ch == nil {
+			fmt.Println("unknown")
+			os.Exit(2)
+		}
+		fmt.Printf("race=%v bins=%v\n", ch.Race, ch.NeedsBins)
 	case "run":
 		if len(os.Args) < 4 {
 			fmt.Fprintln(os.Stderr, "usage: vcheck run <Cnn> <tier>")
 			os.Exit(2)
 		}
-		childBin := os.Getenv("VCHECK_CHILD_BIN")
-		if childBin == "" {
-			childBin, _ = os.Executable()
+		childBin, _ := os.Executable()
+		if ch := core.Lookup(os.Args[2]); ch != nil && ch.Race {
+			if rb := os.Getenv("VCHECK_RACE_BIN"); rb != "" {
+				childBin = rb
+			}
 		}
 		os.Exit(core.ParentMain(os.Args[2], os.Args[3], seedFromEnv(), childBin))
 	case "child":
